@@ -1191,3 +1191,100 @@ def run_faults(ctx):
         if ans != impl:
             ctx.disagree("asf save/delete on the file object", desc, model=ans[:300] + " … " + ans[-120:], impl=impl[:300] + " … " + impl[-120:])
     return ncases
+
+
+# ---------------------------------------------------------------- C06: the file operations of the load
+def run_load_faults(ctx):
+    """ASF(fileobj) on fobj.FaultFile: an IOError injected at every call index, a short read (budget 0, 1, n/2) at every read,
+    against the program `loadM` of lean/MutagenModel/Model/Container/AsfM.lean (`asf op=loadm data=… fail=<i>:io | short=<i>:<k>`):
+    same outcome class (and, on success, the same object tree and tags), same bytes, same position, same sequence of file-object
+    calls; and the statements of C06 on the real outcome: only MutagenError (ValueError from verify_fileobj's read(0)) leaves, the
+    file is untouched, the caller's file object is not closed, a short read is never taken for the end of the file.
+    Returns the number of cases."""
+    import errno, re
+    import fobj
+    from mutagen import MutagenError
+    from mutagen.asf import ASF
+    rng = ctx.rng
+
+    def attempt(data, **faults):
+        f = fobj.FaultFile(data, **faults)
+        k, r = timed(lambda: ASF(f), 30)
+        head = real_walk(r) if k == "ok" else "hang" if k == "hang" else classify(r)
+        log = ",".join(re.sub(r"^r-\d+$", "r0", c) for c in f.log) or "-"
+        return head, f, log
+
+    def line_of(head, f, log):
+        huge = any(c.startswith("r") and len(c) > 19 for c in f.log)      # read(n) with n >= 2**63: OverflowError, position not moved
+        return "%s data=%s pos=%s log=%s" % (head, hx(f.getvalue()), "*" if huge else f.pos(), log), huge
+
+    n = int(os.environ.get("VERIF_ASF_LOAD_CASES", "0")) or ctx.budget(25, 250)
+    reqs = []
+    ncases = 0
+    for i in range(n):
+        if i < len(SAMPLES):
+            with open(os.path.join(REPO, "tests", "data", SAMPLES[i]), "rb") as h:
+                data, kind = h.read(), "sample"
+        else:
+            data, kind, _lay = gen_file(rng)
+            if len(data) > 20000:
+                data = data[:rng.choice([3000, 20000])]
+        desc = dict(kind=kind, op="load", data=hx(data) if len(data) < 1200 else "len=%d" % len(data))
+        head0, f0, log0 = attempt(data)
+        ncases += 1
+        ctx.case(key=("asf-load-faults", kind, i), nontrivial=head0.startswith("ok"), modelled=True, sample=desc if i == 4 else None)
+        ctx.hist["asf:loadfaults:clean:" + head0.split(" ")[0] + ("" if head0.startswith("ok") else " " + head0.split(" ")[-1])] += 1
+        l0, huge0 = line_of(head0, f0, log0)
+        reqs.append(("asf op=loadm data=%s" % hx(data), l0, dict(desc, faults="none"), huge0))
+        if not head0.startswith("ok") and head0 != "err mutagen":
+            ctx.violation("asf:load:escape", "ASF(file) raised %s, not a MutagenError" % head0, desc)
+        calls = list(f0.log)
+        idx = list(range(len(calls))) if len(calls) <= 40 else sorted(set(list(range(10)) + [len(calls) - 1] + [rng.randrange(len(calls)) for _ in range(20)]))
+        for j in idx:
+            head, f, log = attempt(data, fail_at=j, errno_=errno.EIO)
+            case = dict(desc, fail_at=j, call=calls[j])
+            ncases += 1
+            ctx.hist["asf:loadfaults:fail:" + head.split(" objs=")[0]] += 1
+            l, huge = line_of(head, f, log)
+            reqs.append(("asf op=loadm data=%s fail=%d:io" % (hx(data), j), l, case, huge))
+            if head.startswith("ok"):
+                ctx.violation("asf:load:fault:swallowed", "an IOError at call %d (%s) was swallowed" % (j, calls[j]), case)
+            elif head != "err mutagen" and not (head == "err value" and j == 0):
+                ctx.violation("asf:load:fault:escape", "an IOError at call %d (%s) surfaced as %s" % (j, calls[j], head), case)
+            if f.getvalue() != data:
+                ctx.violation("asf:load:file-modified", "the load changed the file", case)
+            if f.closed_called:
+                ctx.violation("asf:load:closed", "the load closed the caller's file object", case)
+        reads = [j for j, c in enumerate(calls) if c.startswith("r") and not c.startswith("r-") and c != "r0"]
+        for j in (reads if len(reads) <= 14 else reads[:6] + rng.sample(reads[6:], 8)):
+            want = int(calls[j][1:])
+            for kshort in sorted(set([0, 1, want // 2])):
+                if kshort >= want:
+                    continue
+                head, f, log = attempt(data, short=(j, kshort))
+                case = dict(desc, short_at=j, short_to=kshort, call=calls[j])
+                ncases += 1
+                ctx.hist["asf:loadfaults:short:" + head.split(" objs=")[0]] += 1
+                l, huge = line_of(head, f, log)
+                reqs.append(("asf op=loadm data=%s short=%d:%d" % (hx(data), j, kshort), l, case, huge))
+                if head.startswith("ok") and head != head0:
+                    ctx.violation("asf:load:short-read:taken-for-eof", "a short read at call %d (%s -> %d bytes) gave a different, normal load" % (
+                        j, calls[j], kshort), case)
+                elif not head.startswith("ok") and head != "err mutagen":
+                    ctx.violation("asf:load:short-read:escape", "a short read at call %d surfaced as %s" % (j, head), case)
+                if f.getvalue() != data or f.closed_called:
+                    ctx.violation("asf:load:file-modified", "the load changed or closed the file", case)
+    answers = ask_model(ctx, [r[0] for r in reqs]) if reqs else None
+    if answers is None:
+        ctx.notes.append("asf_tie.run_load_faults: model driver unavailable, tie skipped")
+        return ncases
+    if any(x == "bad-op" for x in answers):
+        ctx.notes.append("asf_tie.run_load_faults: the driver does not know `asf op=loadm`; tie skipped")
+        return ncases
+    for (line, impl, desc, huge), ans in zip(reqs, answers):
+        ctx.traces_validated += 1
+        if huge:
+            ans = re.sub(r" pos=\d+ ", " pos=* ", ans)
+        if ans != impl:
+            ctx.disagree("asf load on the file object", desc, model=ans[:260] + " … " + ans[-100:], impl=impl[:260] + " … " + impl[-100:])
+    return ncases
